@@ -1,13 +1,87 @@
-"""C58 -- ClientService keeps one connection and resolves every waiter: bounded stand-in (contracts/parts/C58_bounded.py)."""
+"""C58 -- ClientService keeps one connection and resolves every waiter.
+
+Complete finite check: the transition table of the real state machine (built by makeMachine() with automat's
+TypeMachineBuilder) is read back and every public input is shown to have a transition in every state, so no public call
+can raise NoTransition.  Everything else: bounded stand-in (contracts/parts/C58_bounded.py).
+"""
+import time
+
 from contracts._parts import bounded, EXPLORATION_NOTE
 
+PUBLIC_INPUTS = ("start", "stop", "whenConnected")
+
+
+def machine_table():
+    """(states, inputs, {(state name, input): next state name}) of the real ClientService machine"""
+    from automat import _typed
+    captured = []
+    orig = _typed.TypeMachineBuilder.build
+
+    def build(self):
+        captured.append(self)
+        return orig(self)
+    _typed.TypeMachineBuilder.build = build
+    try:
+        from twisted.application import _client_service as cs
+        cs.makeMachine()
+    finally:
+        _typed.TypeMachineBuilder.build = orig
+    auto = captured[-1]._automaton
+    table = {}
+    states, inputs = set(), set()
+    for src, inp, dst, _out in auto.allTransitions():
+        table[(src.name, inp)] = dst.name
+        states.update((src.name, dst.name))
+        inputs.add(inp)
+    states.add(auto.initialState.name)
+    return sorted(states), sorted(inputs), table, auto.initialState.name
+
+
+def table_totality(tier, seed):
+    t0 = time.time()
+    states, inputs, table, init = machine_table()
+    obligations, violations = [], []
+    # reachable states from the initial one
+    reach, todo = {init}, [init]
+    while todo:
+        s = todo.pop()
+        for (a, i), b in table.items():
+            if a == s and b not in reach:
+                reach.add(b)
+                todo.append(b)
+    for s in states:
+        for i in PUBLIC_INPUTS:
+            name = "C58/machine-table/%s-accepts-%s" % (s, i)
+            ok = (s, i) in table
+            obligations.append({"name": name, "kind": "table", "backend": "table-enumeration",
+                                "verdict": "unsat" if ok else "sat", "seconds": 0.0})
+            if not ok:
+                violations.append({"obligation": name, "backend": "table-enumeration",
+                                   "info": {"state": s, "input": i, "why": "no transition: the public call raises NoTransition"}})
+    name = "C58/machine-table/all-states-reachable"
+    ok = set(states) == reach
+    obligations.append({"name": name, "kind": "table", "backend": "table-enumeration", "verdict": "unsat" if ok else "sat",
+                        "seconds": round(time.time() - t0, 3)})
+    if not ok:
+        violations.append({"obligation": name, "backend": "table-enumeration", "info": {"unreachable": sorted(set(states) - reach)}})
+    return {"obligations": obligations, "violations": violations,
+            "functions": [{"function": "twisted.application._client_service:makeMachine", "status": "table read back: %d states x %d inputs, %d transitions"
+                           % (len(states), len(inputs), len(table))}],
+            "trusted": ["automat's TypeMachineBuilder records exactly the transitions it dispatches on (allTransitions())"]}
+
+
 CONTRACTS = []
+EXTRA = [table_totality]
 BOUNDED = bounded("C58")
 _SCOPE = ('real ClientService with a fake endpoint, fake transports, retry policy n -> 2**n and task.Clock: every history over {start, stop, whenConnected (no limit / 1 / 2), attempt succeeds / fails, prepareConnection raises / defers / later fires or fails, connection drops, clock ticks to just before and exactly the retry time} up to length 9-11 (thorough 13-16) with state-pair pruning over 4 configurations, and seeded random 80-event histories over 5 profiles; oracle from the statement only (at most one attempt or connection, retry delay for the current consecutive-failure count, every whenConnected Deferred fires once and no later than the next connection / its limit / stop, stopService Deferreds fire once closed, nothing raises)')
-NOTES = dict(explanation=_SCOPE, not_covered=["deductive contracts on the anchored functions (not built)"])
+NOTES = dict(explanation="Transition-table totality for the public inputs (complete, finite). " + _SCOPE,
+             not_covered=["deductive contracts on the transition bodies (closures over _Core; not built)",
+                          "internal inputs (_connectionMade, _connectionFailed, _clientDisconnected) are not total: see the known finding"])
 MANIFEST = dict(
     category="exploration",
-    text="Bounded stand-in only, on the real code: " + _SCOPE + ".",
+    text="The transition table of the real machine is read back from makeMachine(): every public input (start, stop, "
+         "whenConnected) has a transition in every state and every state is reachable (complete finite check, reported as "
+         "obligations).  Everything else is a bounded stand-in on the real code: " + _SCOPE + ".",
     note=EXPLORATION_NOTE,
-    technique="bounded exhaustive evaluation of an executable contract on the real code (stand-in; not proved)",
+    technique="complete enumeration of the real transition table + bounded exhaustive evaluation of an executable contract on the real code (stand-in; not proved)",
 )
